@@ -435,6 +435,28 @@ def _order_and_bookkeeping(prog, res):
       c.ops[0], ast.NotIn) and norm_text(c.left) == a and dotted(
           c.comparators[0]) == 'used_idx' for t, p in gs if p
                   for c in ast.walk(t))
+  if not free_test and a == s:
+    # the candidate comes from a helper: every non-None value the helper
+    # returns is tested to be free of the set it was handed
+    from ..model import call_args
+    for d in ast.walk(wq.node):
+      if isinstance(d, ast.Assign) and len(d.targets) == 1 and norm_text(
+          d.targets[0]) == a and isinstance(d.value, ast.Call):
+        h = prog.resolve_call(wq, d.value)
+        if getattr(h, 'node', None) is None or not hasattr(h, 'all_params'):
+          continue
+        bound, _, _ = call_args(d.value, h.all_params)
+        ps = [p_ for p_, v in bound.items() if dotted(v) == 'used_idx']
+        rets = [r for r in ast.walk(h.node) if isinstance(r, ast.Return) and
+                r.value is not None and not is_none(r.value)]
+        if len(ps) == 1 and rets and all(any(
+            pol and any(isinstance(c, ast.Compare) and isinstance(
+                c.ops[0], ast.NotIn) and norm_text(c.left) == norm_text(
+                    r.value) and dotted(c.comparators[0]) == ps[0]
+                        for c in ast.walk(t))
+            for t, pol in (structural_guards(h.node, r) or []))
+                                         for r in rets):
+          free_test = True
   res.check(a == s and free_test, 'K2',
             'premade_lib._weighted_quantile|used-is-stored', wq.loc(adds[0]),
             'the index recorded as used is the index stored, and it was '
